@@ -22,7 +22,9 @@ package tally
 
 import (
 	"bytes"
+	"strings"
 	"sync"
+	"unicode/utf8"
 )
 
 var (
@@ -146,13 +148,16 @@ func (c *ValidCharacters) sanitizeFn(repChar rune) SanitizeFn {
 		for idx, ch := range value {
 			// first check if the provided character is valid
 			validCurr := false
-			for i := 0; !validCurr && i < len(c.Ranges); i++ {
+			// an invalid byte decodes as utf8.RuneError; it must be replaced
+			// even when the configuration allows U+FFFD itself
+			invalidByte := ch == utf8.RuneError && !strings.HasPrefix(value[idx:], "\uFFFD")
+			for i := 0; !invalidByte && !validCurr && i < len(c.Ranges); i++ {
 				if ch >= c.Ranges[i][0] && ch <= c.Ranges[i][1] {
 					validCurr = true
 					break
 				}
 			}
-			for i := 0; !validCurr && i < len(c.Characters); i++ {
+			for i := 0; !invalidByte && !validCurr && i < len(c.Characters); i++ {
 				if c.Characters[i] == ch {
 					validCurr = true
 					break
